@@ -279,7 +279,7 @@ class Scratch:
 # workers (run the real implementation) and the Lean driver (runs the model)
 # ----------------------------------------------------------------------------------------------
 
-def run_worker(scratch, build, pid, cases, timeout):
+def run_worker(scratch, build, pid, cases, timeout, hangs=0):
     """run the cases on the implementation in a subprocess; returns list of per-case dicts
     {id, lines:[...], obs:{...}, error?}.  A case on which the implementation hangs is reported with hang=True."""
     inp = os.path.join(scratch.root, "cases-%s-%d.json" % (build, random.getrandbits(40)))
@@ -304,9 +304,13 @@ def run_worker(scratch, build, pid, cases, timeout):
                     pass
     done = {r["id"] for r in res}
     if rc == 75:
+        # a case hung (recorded); after 3 hangs in this slice the remaining cases are not run: they would only repeat
+        # the finding at the price of a watchdog timeout each
         rest = [c for c in cases if c["id"] not in done]
-        if rest:
-            res.extend(run_worker(scratch, build, pid, rest, timeout))
+        if rest and hangs + 1 < 3:
+            res.extend(run_worker(scratch, build, pid, rest, timeout, hangs + 1))
+        else:
+            res.extend({"id": c["id"], "lines": [], "skipped": True} for c in rest)
     elif rc != 0:
         # the first case not reported is the one that killed / hung the worker
         rest = [c for c in cases if c["id"] not in done]
